@@ -1252,9 +1252,70 @@ fn terminal(rng: &mut Rng, bias: &[&str], scanners: &[String]) -> String {
     s
 }
 
+/// Family "left factoring moves first occurrences": two alternatives share a prefix, the first one
+/// continues with a repetition / optional / group over fresh terminals, and a terminal `Z` that a
+/// `%skip` / `%on` directive refers to (through its primary non-terminal) occurs in SEVERAL quoting
+/// styles — so that left factoring reorders the first occurrences, changes `Z`'s number and possibly the
+/// recorded kind of its first occurrence (findings F29, F11 and the seeded change mut-C18 live here).
+fn lf_directive_par(rng: &mut Rng) -> String {
+    let zs = ["z", "if", "x", "a.b", "-"];
+    let z = *rng.pick(&zs);
+    let style = |rng: &mut Rng, t: &str, allow_raw: bool| -> String {
+        match rng.below(if allow_raw { 3 } else { 2 }) {
+            0 => format!("\"{t}\""),
+            1 => format!("/{t}/"),
+            _ => format!("'{t}'"),
+        }
+    };
+    let lalr = rng.chance(1, 5);
+    let two_modes = rng.chance(1, 2);
+    let mut s = String::from("%start S\n");
+    if lalr {
+        s.push_str("%grammar_type 'LALR(1)'\n");
+    }
+    let use_skip = rng.chance(1, 2) || !two_modes;
+    if use_skip {
+        s.push_str("%skip Sk\n");
+    }
+    if two_modes {
+        s.push_str(match rng.below(3) {
+            0 => "%on Sk %enter M\n",
+            1 => "%on Sk %push M\n",
+            _ => "%on Back %enter M\n",
+        });
+        s.push_str("%scanner M {\n    %on Back %enter INITIAL\n");
+        if rng.chance(1, 2) {
+            s.push_str("    %skip Sk\n");
+        }
+        s.push_str("}\n");
+    }
+    s.push_str("%%\n");
+    let inner_z = if rng.chance(2, 3) { format!(" {}", style(rng, z, false)) } else { String::new() };
+    let wrap = match rng.below(3) {
+        0 => format!("{{ \"q\"{inner_z} }}"),
+        1 => format!("[ \"q\"{inner_z} ]"),
+        _ => format!("( \"q\"{inner_z} | \"r\" )"),
+    };
+    let z2 = style(rng, z, false);
+    let modes = if two_modes { "<INITIAL, M>" } else { "" };
+    s.push_str(&format!("S: \"a\" {wrap} \"b\"\n | \"a\" {z2}\n | Sk"));
+    if two_modes {
+        s.push_str(" Back");
+    }
+    s.push_str(";\n");
+    s.push_str(&format!("Sk: {modes}{};\n", style(rng, z, false)));
+    if two_modes {
+        s.push_str("Back: <M, INITIAL>\"y\";\n");
+    }
+    s
+}
+
 /// One random PAR grammar. Non-terminals only refer to later ones (no recursion, all productive,
 /// all reachable); primary non-terminals (`Tk: <terminal>;`) feed `%on` and `%skip`.
 pub fn random_par(rng: &mut Rng) -> String {
+    if rng.chance(1, 6) {
+        return lf_directive_par(rng);
+    }
     // a per-grammar bias: two or three texts that exist in both pools
     let common = ["a", "b", "ab", "a.b", "a+", "b*", "if", "x", "a|b", "[ab]", "-"];
     let nb = rng.range(1, 3);
